@@ -215,6 +215,11 @@ func CreateAuthenticators(cfg AuthConfig) []Authenticator {
 			// Fall back to plaintext credentials (deprecated)
 			creds := StaticCredentials(cfg.Users)
 			auths = append(auths, NewUserPassAuthenticator(creds))
+		} else if cfg.Required {
+			// Authentication is mandatory but no user has a usable password.
+			// Install an authenticator that rejects everyone: an empty list
+			// would make the server fall back to no-auth (an open proxy).
+			auths = append(auths, NewUserPassAuthenticator(StaticCredentials{}))
 		}
 	}
 
